@@ -1,10 +1,114 @@
-(** C03 — exported statements only. *)
+(** C03 — Nibiru EVM state transitions equal go-ethereum's on the same program.
+    PARTIAL: the geth interpreter is the same code on both sides and is not modelled; the
+    theorems live at the vm.StateDB interface (every protocol-obeying call sequence) plus the
+    ApplyEvmMsg arithmetic.  This file holds only the exported statements. *)
 From Coq Require Import ZArith List Bool.
 Import ListNotations.
 Require Import Nib.C03.Model Nib.C03.Ref Nib.C03.Spec Nib.C03.Proofs.
 Local Open Scope Z_scope.
 
+(** One step.  [R k0 f r]: the journaled StateDB [f] over keeper [k0] and the copy-stack reference
+    [r] show the same state (every getter), and every live revision unwinds to its saved copy.
+    Any method call obeying the protocol returns the same value on both and keeps [R]. *)
+Theorem C03_step_refines_reference :
+  forall k0 f r o, R k0 f r -> wf_step (k_stor k0) r o ->
+  snd (step o f) = snd (rstep o r) /\ R k0 (fst (step o f)) (fst (rstep o r)).
+Proof. exact step_sim. Qed.
+Print Assumptions C03_step_refines_reference.
+
+(** Any sequence, any length, any nesting of Snapshot/RevertToSnapshot: the list of all return
+    values (= every observation the interpreter makes after every prefix) equals the reference's. *)
+Theorem C03_journal_revert_exact :
+  forall k0 ops f r, R k0 f r -> wf_run (k_stor k0) ops r ->
+  snd (run ops f) = snd (rrun ops r) /\ R k0 (fst (run ops f)) (fst (rrun ops r)).
+Proof. exact run_sim. Qed.
+Print Assumptions C03_journal_revert_exact.
+
+(** [R] implies agreement on everything readable, also on what was not read. *)
+Theorem C03_related_states_read_equal :
+  forall k0 f r, R k0 f r -> veq (V (core f)) (cur r).
+Proof. intros k0 f r H. exact (R_cur k0 f r H). Qed.
+Print Assumptions C03_related_states_read_equal.
+
+(** A fresh StateDB is related to the reference started from the world the keeper holds. *)
+Theorem C03_fresh_statedb_related : forall k, R k (new_full k) (ref_begin (world_of k)).
+Proof. exact R_init. Qed.
+Print Assumptions C03_fresh_statedb_related.
+
+(** Commit writes exactly the visible state: for EVERY address the keeper afterwards holds the
+    account (balance in unibi = wei/10^12, nonce, code hash) and every storage slot of the
+    reference's end-of-transaction world; self-destructed accounts are gone with their storage. *)
+Theorem C03_commit_writes_exactly_visible :
+  forall s, Inv s -> clean (kp s) (journal s) (V s) -> kwf (kp s) ->
+  forall a, committed_at (V s) (commit s) a.
+Proof. exact commit_writes_visible. Qed.
+Print Assumptions C03_commit_writes_exactly_visible.
+
+(** One transaction end to end (fresh StateDB, calls, Commit) vs the reference transaction. *)
+Theorem C03_transaction_refines_reference :
+  forall k ops, kwf k -> wf_run (k_stor k) ops (ref_begin (world_of k)) ->
+  let k' := fst (run_tx k ops) in
+  let w' := fst (ref_tx (world_of k) ops) in
+  snd (run_tx k ops) = snd (ref_tx (world_of k) ops) /\
+  (forall a, match w_acct w' a, k_acct k' a with
+             | Some x, Some y => ka_bal y = to_native (wa_bal x) /\ ka_nonce y = wa_nonce x /\ ka_code y = wa_code x
+             | None, None => True
+             | _, _ => False
+             end /\ forall ky, k_stor k' a ky = w_stor w' a ky) /\
+  kwf k' /\
+  (whole_unibi w' -> weq (world_of k') w').
+Proof. exact tx_refines. Qed.
+Print Assumptions C03_transaction_refines_reference.
+
+(** Histories of transactions whose value transfers are whole multiples of 10^12 wei: after every
+    transaction the return values are the reference's and the keeper holds exactly the reference's
+    world (balances included). *)
+Theorem C03_history_refines_reference :
+  forall txs k, kwf k -> hist_wf' k txs -> hist_ok k txs.
+Proof. intros txs k Hk H. exact (history_refines txs k Hk (hist_wf'_wf txs k H)). Qed.
+Print Assumptions C03_history_refines_reference.
+
+(** Moving whole unibi keeps every balance whole (so the wei <-> unibi conversion at Commit is exact). *)
+Theorem C03_whole_unibi_preserved :
+  forall k ops, Forall op_whole ops -> whole_unibi (fst (ref_tx (world_of k) ops)).
+Proof. exact whole_amounts_whole_world. Qed.
+Print Assumptions C03_whole_unibi_preserved.
+
+(** ApplyEvmMsg: refund = min(gasUsed / quotient, refund counter); bounds; London cap. *)
+Theorem C03_refund_cap_eq_geth :
+  forall q avail used, gas_to_refund q avail used = Z.min (used / q) avail.
+Proof. exact gas_to_refund_is_min. Qed.
+Print Assumptions C03_refund_cap_eq_geth.
+
+Theorem C03_refund_cap_bounds :
+  forall q avail used, 0 < q -> 0 <= avail -> 0 <= used ->
+  0 <= gas_to_refund q avail used <= avail /\ gas_to_refund q avail used * q <= used.
+Proof. exact gas_to_refund_bounds. Qed.
+Print Assumptions C03_refund_cap_bounds.
+
+(** ApplyEvmMsg: after SetNonce(from, n) the sender's nonce reads n (the nonce bracket). *)
+Theorem C03_nonce_bracket :
+  forall s a m, snd (step_core (OGetNonce a) (fst (step_core (OSetNonce a m) s))) = [m].
+Proof. exact nonce_bracket. Qed.
+Print Assumptions C03_nonce_bracket.
+
+(** ParseWeiAsMultipleOfMicronibi leaves whole-unibi values unchanged. *)
+Theorem C03_parse_wei_multiple : forall n, 0 <= n -> parse_wei (to_wei n) = Some (to_wei n).
+Proof. exact parse_wei_multiple. Qed.
+Print Assumptions C03_parse_wei_multiple.
+
+(** The structural invariants Commit needs hold in every reachable StateDB. *)
+Theorem C03_invariants_reachable : forall k ops, Inv (core (fst (run ops (new_full k)))).
+Proof. intros k ops. exact (Inv_run ops (new_full k) (Inv_new k)). Qed.
+Print Assumptions C03_invariants_reachable.
+
 (** The boolean checker evaluated on implementation traces is sound for [P]. *)
 Theorem C03_checker_sound : forall t, Pb t = true -> P t.
 Proof. exact Pb_sound. Qed.
 Print Assumptions C03_checker_sound.
+
+(** Non-vacuity: a concrete two-transaction history with a contract creation, nested frames, a
+    reverted SSTORE/refund/log/SELFDESTRUCT frame meets all hypotheses. *)
+Theorem C03_hypotheses_nonvacuous : kwf empty_keeper /\ hist_wf' empty_keeper [ex_ops; ex_tx2].
+Proof. exact (conj kwf_empty ex_hist_nonvacuous). Qed.
+Print Assumptions C03_hypotheses_nonvacuous.
